@@ -83,6 +83,7 @@ class Pool:
         self.dX = da.from_array(self.Xbuf, chunks=(tuple(case["chunks"]), self.Xbuf.shape[1]))
         self.y = np.array(case["y"])
         self.ylist = [int(v) for v in case["y"]]
+        self.ycol = np.array(case["y"]).reshape(-1, 1)
         self.init = np.array(case["init"], dtype=float)
         self.ubm = sut.make_gmm(case["ubm"])
         pp = dict(case["ubm"])
@@ -107,7 +108,7 @@ class Pool:
 
     def members(self):
         out = {"X": self.X, "Xbuf": self.Xbuf, "y": self.y, "init": self.init, "ylab": self.ylab, "offsets": self.offsets,
-               "z": self.z, "models": self.models, "ylist": np.array(self.ylist), "alpha": self.alpha}
+               "z": self.z, "models": self.models, "ylist": np.array(self.ylist), "alpha": self.alpha, "ycol": self.ycol}
         if self.yy is not None:
             out["yy"] = self.yy
         for name, g in (("ubm", self.ubm), ("prior", self.prior), ("fa.ubm", self.fa.ubm)):
@@ -304,7 +305,8 @@ def run_op(pool, op):
             m = ISVMachine(r_U=rU, ubm=pool.ubm, **kw)
         m.U = np.array(case["U"], dtype=float)
         m.D = np.array(case["D"], dtype=float)
-        m.fit_using_array(data, pool.y)
+        # labels as the caller keeps them: a flat array, or an (N, 1) column (which the function flattens itself)
+        m.fit_using_array(data, pool.ycol if op["dask"] else pool.y)
         res = {"U": m.U, "D": m.D}
 
         def train():
